@@ -210,13 +210,26 @@ Proof. split; vm_compute; reflexivity. Qed.
 
 (** * The whole alphabet: + groupBy().agg() as a step, unpivot, dropDuplicates(subset)
     The compiled form is a list of stages (SELECT blocks, GROUP BY, UNION ALL, ROW_NUMBER) + an open C01 state. *)
-Definition gen_g : gcfg := mkGcfg wrap_needed_group init_wraps_group group_agg_kind.
+Definition gen_g : gcfg := mkGcfg wrap_needed_group init_wraps_group group_agg_kind order_flag_desc order_flag_nulls_first.
 
 (** instantiation obligations on the generated facts: group_operation's wrapper and GroupedData.agg's decorator
     leave a block GROUP BY can be written into (wrapped, or tagged below SELECT) and tag the result >= SELECT's
     rank in the table; unpivot / dropDuplicates carry a kind the clause-ordering table knows *)
 Lemma gen_deco_ok_y : deco_ok_y gen_cfg gen_g (deco_of decorator_table) = true.
 Proof. vm_compute. reflexivity. Qed.
+(** every way of asking orderBy for a direction yields Spark's term: a sort column with an `ascending` flag (also the
+    default, and bare names) becomes DESC iff the flag is false, with NULLS FIRST iff ascending; the Column methods carry
+    the flags their names say (asc = ASC NULLS FIRST, desc = DESC NULLS LAST, ...) *)
+Lemma gen_order_flags_are_sparks : forall asc, order_flag_desc asc = negb asc /\ order_flag_nulls_first asc = asc.
+Proof. intros [|]; split; vm_compute; reflexivity. Qed.
+Lemma gen_order_default_ascending : order_default_asc = true.
+Proof. reflexivity. Qed.
+Lemma gen_column_order_methods :
+  column_order_methods =
+  [("asc", (false, true)); ("asc_nulls_first", (false, true)); ("asc_nulls_last", (false, false));
+   ("desc", (true, false)); ("desc_nulls_first", (true, true)); ("desc_nulls_last", (true, false))]%string.
+Proof. reflexivity. Qed.
+
 Lemma gen_group_wrapper_is_df_wrapper :
   forallb (fun l => forallb (fun n => Bool.eqb (wrap_needed_group l n) (wrap_needed_df l n)) all_opk) all_opk = true
   /\ init_wraps_group = init_wraps_df.
@@ -284,7 +297,7 @@ Example C01_all_domain_nonempty :
      XUnpivot ["z"%string] ["x"; "y"]%string "var"%string "val"%string;
      XCore (UOp (OWhere (ENot (EIsNull (ECol "val")))));
      XAgg ["z"; "var"]%string [((ASum, "val"%string), "g0"%string); ((ACountStar, "*"%string), "g1"%string)];
-     XCore (UOp (OOrderBy [mkKey (ECol "g0") true false; mkKey (ECol "z") false true]));
+     XOrderFlags [("g0"%string, false); ("z"%string, true)];
      XCore (UOp (OLimit 3));
      XAgg [] [((AMax, "g1"%string), "m"%string)];
      XFillna [("m"%string, VInt 0)]] = true.
